@@ -135,6 +135,14 @@ func init() {
 					ops = append(ops, Op{ID: fmt.Sprintf("c%d.%d", c, i), Kind: KRaw, Ledger: "l1", Raw: &req})
 					continue
 				}
+				if r.Chance(0.08) {
+					// script-stream bulk with a damaged element header
+					hdr := Pick(r, []string{"//script", "//script ik", "//script ik=", "//script ik=a,ik=b", "//script foo=bar", "//script =", "//script ,", "//script ik=a,", "// script", "//scriptik=a", "//script ik=a=b", "//script\tik=x"})
+					body := hdr + "\nsend [USD 1] (\n  source = @world\n  destination = @bank\n)\n" + Pick(r, []string{"//end\n", "", "//end", "//end\n//script ik\n"})
+					req := Request{Method: "POST", Path: "/v2/l1/_bulk", Header: map[string]string{"Content-Type": "application/vnd.formance.ledger.api.v2.bulk+script-stream"}, Body: body, Chunked: Pick(r, []int{7, 1 << 20})}
+					ops = append(ops, Op{ID: fmt.Sprintf("c%d.%d", c, i), Kind: KRaw, Ledger: "l1", Raw: &req})
+					continue
+				}
 				if r.Chance(0.25) {
 					req := fuzzRead(r)
 					ops = append(ops, Op{ID: fmt.Sprintf("c%d.%d", c, i), Kind: KRaw, Ledger: "l1", Raw: &req})
@@ -196,7 +204,7 @@ var badCursors = []string{"x", "%00", "e30", "bnVsbA", b64(`{"offset":"x"}`), b6
 	b64(`{"column":"id","order":"desc","pageSize":2,"options":{"pit":"notadate"}}`), b64(`{"column":"id","pageSize":2,"options":{"qb":{"$match":{"id":[1]}}}}`),
 	b64(`{"column":"id","pageSize":2,"options":{"qb":12,"expand":7}}`), b64(`[1,2]`), b64(`"str"`), b64(`{"offset":0,"pageSize":3,"options":null}`), strings.Repeat("A", 5000)}
 
-var badParams = []string{"pageSize=abc", "pageSize=-1", "pageSize=99999999999999999999", "pageSize=0", "pit=notadate", "pit=2024-13-45T99:00:00Z", "oot=1", "pit=&oot=%ff",
+var badParams = []string{"sort=reference", "sort=metadata:desc", "sort=type", "sort=balance", "sort=reverted:asc", "pageSize=abc", "pageSize=-1", "pageSize=99999999999999999999", "pageSize=0", "pit=notadate", "pit=2024-13-45T99:00:00Z", "oot=1", "pit=&oot=%ff",
 	"expand=volumes,foo", "sort=bad:sideways", "sort=:desc", "sort=id:asc", "query=%7B", "query=12", "query=%7B%22%24match%22%3A%7B%22id%22%3A%22x%22%7D%7D", "after=abc", "start_time=bad", "end_time=bad",
 	"pagination_token=zzz", "page_size=x", "reference=%00", "metadata[a]=b", "startTime=x", "endTime=y", "insertedAt=z", "useInsertionDate=maybe", "dryRun=2", "force=x"}
 
